@@ -158,6 +158,10 @@ impl<T> SocksRequest<T> {
             }
             TargetAddress::SocketAddr(a) => {
                 if let IpAddr::V4(v4) = a.ip() {
+                    if v4.octets()[..3] == [0, 0, 0] {
+                        // 0.0.0.x announces a socks4a domain name
+                        bail!("address can not be encoded in socks4: {}", self.target)
+                    }
                     (v4.octets(), a.port(), None)
                 } else {
                     bail!("ipv6 not supported in socks4: {}", self.target)
